@@ -188,6 +188,11 @@ func classify(prop string, o *outcome) (nontrivial bool, feature uint64, classes
 		nontrivial = (has("fsm-restore") || has("install-snapshot")) && st["leader"] >= 2
 	case "C03":
 		nontrivial = st["leader"] >= 2 && has("apply-ok") && (has("restart") || has("partition") || has("isolate"))
+	case "C04":
+		nontrivial = anyPrefix(st, "delete@appendEntries") || has("install-snapshot") || (st["leader"] >= 2 && fault)
+		add(anyPrefix(st, "delete@appendEntries"), "conflict-truncation")
+	case "C10":
+		nontrivial = has("restart") && (has("crash") || anyPrefix(f, "fault:"))
 	case "C05":
 		nontrivial = has("apply-ok") && fault
 	case "C07":
@@ -311,6 +316,8 @@ func TestClusterSafety(t *testing.T) { runProfile(t, envOr("VERIF_PROP", "C01"),
 func TestC01(t *testing.T)     { runProfile(t, "C01", "election") }
 func TestC02(t *testing.T)     { runProfile(t, "C02", "snapshot") }
 func TestC03(t *testing.T)     { runProfile(t, "C03", "durability") }
+func TestC04(t *testing.T)     { runProfile(t, "C04", "safety") }
+func TestC10(t *testing.T)     { runProfile(t, "C10", "durability") }
 func TestC05(t *testing.T)     { runProfile(t, "C05", "commit") }
 func TestC07(t *testing.T)     { runProfile(t, "C07", "membership") }
 func TestC08(t *testing.T)     { runProfile(t, "C08", "clients") }
